@@ -9,7 +9,9 @@
   Added in the last growth round (end of file): `best_responses_nonempty`, `best_response_smallest`,
   `is_nash_is_definition` (pure and mixed profiles), `delete_actions_views` (list of actions),
   `poke_views`, `profile_array_after_set`, `dominated_never_best_response`, `dominated_not_nash`,
-  `mixed_dominated_never_best_response`.
+  `mixed_dominated_never_best_response`; second round: `best_response_2p_eq`, `best_response_2p_spec`,
+  `payoff_vector_pure2mixed`, `randomChoice_mem`, `step_brr` (new model definitions `payoffVector2p`,
+  `bestResponse2p`, `pure2mixed`, `randomChoice`, op `brr`).
   Not proved (outside the model, see QEModel/C14.lean): the decimal text of GAM numbers, `lstsq`
   in `PolymatrixGame.from_nf`, the LP solver behind `is_dominated` (a certificate is checked instead).
 -/
@@ -2016,5 +2018,184 @@ example : ∀ r, inBounds [2] r = true →
   rcases this with rfl | rfl <;> norm_num [Finset.sum_range_succ, Arr.get, flatIndex, prod]
 
 end mixdom
+
+/-! ## Alternative entry points: `best_response_2p`, `pure2mixed`, `random_choice` -/
+
+section br2p
+variable {α : Type} [Zero α] [Add α] [Sub α] [Mul α] [LT α] [LE α] [DecidableLT α] [DecidableLE α]
+
+omit [Sub α] [LT α] [LE α] [DecidableLT α] [DecidableLE α] in
+/-- the payoff vector accumulated by the Numba kernel is `Player.payoff_vector` against the mixed
+    action (same additions in the same order) -/
+theorem payoffVector2p_eq (A : Arr α) (n m : Nat) (x : List α) (hs : A.shape = [n, m]) :
+    payoffVector2p A x = (payoffVector A [.mixed x]).data := by
+  unfold payoffVector2p
+  show _ = (A.dotLast x).data
+  unfold Arr.dotLast Arr.tab
+  have hfm : ∀ l : List Nat, l.flatMap (fun a => [[a]]) = l.map fun a => [a] := by
+    intro l; induction l <;> simp_all
+  simp only [hs, List.getD_cons_zero, List.getD_cons_succ, List.dropLast_cons_cons, List.dropLast_singleton,
+    List.getLastD_cons, List.getLastD_nil]
+  simp [allIdx, hfm, List.map_map, Function.comp_def]
+
+/-- **best_response_2p is Player.best_response with the default tie-breaking**: on an `n × m` payoff
+    matrix the kernel returns the first element of the list of best responses (those within `tol` of
+    the maximum) computed from `payoff_vector` against the mixed action — `none` exactly when that
+    list is empty. -/
+theorem best_response_2p_eq (A : Arr α) (n m : Nat) (x : List α) (tol : α) (hs : A.shape = [n, m]) :
+    bestResponse2p A x tol = (bestResponses (payoffVector A [.mixed x]).data tol).head? := by
+  unfold bestResponse2p bestResponses
+  rw [payoffVector2p_eq A n m x hs, List.head?_filter]
+
+end br2p
+
+example : bestResponse2p (⟨[3, 2], [1, 2, 3, 0, 3, 0]⟩ : Arr Int) [1, 1] 0 = some 0 ∧
+    bestResponse2p (⟨[3, 2], [1, 2, 3, 0, 3, 0]⟩ : Arr Int) [1, 1] (-1) = none ∧
+    bestResponse2p (⟨[3, 2], [1, 2, 4, 0, 4, 0]⟩ : Arr Int) [1, 1] 0 = some 1 := by decide
+
+section br2pspec
+variable {K : Type} [Field K] [LinearOrder K] [IsStrictOrderedRing K]
+
+/-- **best_response_2p, characterised.** It returns `a` exactly when `a` is the least row whose
+    expected payoff is within `tol` of every row's; for a matrix with at least one row and `tol ≥ 0`
+    it always returns an action. -/
+theorem best_response_2p_spec (A : Arr K) (n m : Nat) (x : List K) (tol : K) (a : Nat)
+    (hs : A.shape = [n, m]) :
+    (bestResponse2p A x tol = some a ↔
+      (a < (payoffVector2p A x).length ∧
+        ∀ b, b < (payoffVector2p A x).length → (payoffVector2p A x).getD b 0 - tol ≤ (payoffVector2p A x).getD a 0) ∧
+      ∀ c, (c < (payoffVector2p A x).length ∧
+        ∀ b, b < (payoffVector2p A x).length → (payoffVector2p A x).getD b 0 - tol ≤ (payoffVector2p A x).getD c 0) → a ≤ c) ∧
+    (0 < n → 0 ≤ tol → bestResponse2p A x tol ≠ none) := by
+  rw [best_response_2p_eq A n m x tol hs, payoffVector2p_eq A n m x hs]
+  refine ⟨best_response_smallest _ tol a, ?_⟩
+  intro hn htol
+  have hv : (payoffVector A [Act.mixed x]).data ≠ [] := by
+    rw [← payoffVector2p_eq A n m x hs]
+    intro e
+    have := congrArg List.length e
+    simp [payoffVector2p, hs] at this
+    omega
+  have := best_responses_nonempty _ tol hv htol
+  cases h : bestResponses (payoffVector A [Act.mixed x]).data tol with
+  | nil => exact absurd h this
+  | cons y ys => simp
+
+end br2pspec
+
+section p2m
+variable {K : Type} [CommSemiring K]
+
+theorem getD_pure2mixed (n a b : Nat) (hb : b < n) :
+    (pure2mixed (α := K) n a).getD b 0 = if b = a then 1 else 0 := by
+  simp [pure2mixed, List.getD_eq_getElem?_getD, List.getElem?_map, List.getElem?_range hb]
+
+theorem length_pure2mixed (n a : Nat) : (pure2mixed (α := K) n a).length = n := by simp [pure2mixed]
+
+/-- reducing an axis with `pure2mixed(n, a)` is evaluating at `a` -/
+theorem reduceFn_pure2mixed (n a : Nat) (h : Nat → K) (ha : a < n) :
+    reduceFn n (.mixed (pure2mixed n a)) h = h a := by
+  simp only [reduceFn]
+  rw [foldl_add_eq_sum n (fun b => h b * (pure2mixed (α := K) n a).getD b 0)]
+  have : (List.range n).map (fun b => h b * (pure2mixed (α := K) n a).getD b 0)
+      = (List.range n).map (fun b => (if b = a then 1 else 0) * h b) := by
+    apply List.map_congr_left
+    intro b hb
+    rw [getD_pure2mixed n a b (List.mem_range.mp hb), mul_comm]
+  rw [this, sum_indicator n a h ha]
+
+/-- the opponents' pure profile `r`, each action written as `pure2mixed(n_j, r_j)` -/
+def asMixed : List Nat → List Nat → List (Act K)
+  | n :: s, a :: r => .mixed (pure2mixed n a) :: asMixed s r
+  | _, _ => []
+
+theorem expect_asMixed : ∀ (s r : List Nat) (f : List Nat → K), inBounds s r = true →
+    expect s (asMixed (K := K) s r) f = f r
+  | [], [], _, _ => rfl
+  | [], _ :: _, _, h => by simp [inBounds] at h
+  | _ :: _, [], _, h => by simp [inBounds] at h
+  | n :: s, a :: r, f, h => by
+    simp only [inBounds, Bool.and_eq_true, decide_eq_true_eq] at h
+    simp only [asMixed, expect]
+    rw [reduceFn_pure2mixed n a _ h.1]
+    exact expect_asMixed s r (fun r => f (a :: r)) h.2
+
+theorem actsOk_asMixed : ∀ (s r : List Nat), inBounds s r = true → actsOk (α := K) s (asMixed s r)
+  | [], [], _ => trivial
+  | [], _ :: _, h => by simp [inBounds] at h
+  | _ :: _, [], h => by simp [inBounds] at h
+  | n :: s, a :: r, h => by
+    simp only [inBounds, Bool.and_eq_true, decide_eq_true_eq] at h
+    simp only [asMixed, actsOk, actOk, length_pure2mixed, if_true, true_and]
+    exact actsOk_asMixed s r h.2
+
+/-- **pure2mixed is faithful.** Against opponents whose pure actions `r` are passed in their mixed
+    representation `pure2mixed(n_j, r_j)`, `payoff_vector` is the same as against the pure actions
+    themselves: entry `a` is `payoff_array[a, r…]` (any number of opponents). -/
+theorem payoff_vector_pure2mixed (A : Arr K) (n0 : Nat) (s r : List Nat) (a : Nat)
+    (hs : A.shape = n0 :: s) (hr : inBounds s r = true) (ha : a < n0) :
+    (payoffVector A (asMixed s r)).get [a] = A.get (a :: r) ∧
+    (payoffVector A (asMixed s r)).get [a] = (payoffVector A (r.map Act.pure)).get [a] := by
+  have h1 : (payoffVector A (asMixed s r)).get [a] = A.get (a :: r) := by
+    rw [(payoff_vector_is_expectation A n0 s _ a hs (actsOk_asMixed s r hr) ha).2, expect_asMixed s r _ hr]
+  exact ⟨h1, by rw [h1, payoff_vector_pure A n0 s r a hs hr ha]⟩
+
+example : pure2mixed (α := Int) 3 2 = [0, 0, 1] ∧
+    (payoffVector (⟨[2, 3], [0, 1, 2, 10, 11, 12]⟩ : Arr Int) (asMixed [3] [2])).data = [2, 12] := by decide
+
+end p2m
+
+/-! ### random_choice -/
+
+/-- `random_choice` returns one of the candidates, and with a single candidate the same one
+    whatever the generator would have produced -/
+theorem randomChoice_mem (actions : List Nat) (draw a : Nat) (h : randomChoice actions draw = some a) :
+    a ∈ actions := by
+  unfold randomChoice at h
+  split at h <;> exact List.mem_of_getElem? h
+
+theorem randomChoice_single (a draw : Nat) : randomChoice [a] draw = some a := rfl
+
+theorem randomChoice_some (actions : List Nat) (draw : Nat) (hd : draw < actions.length) :
+    ∃ a, randomChoice actions draw = some a := by
+  unfold randomChoice
+  split
+  · exact ⟨actions[0]'(by omega), List.getElem?_eq_getElem (by omega)⟩
+  · exact ⟨actions[draw], List.getElem?_eq_getElem hd⟩
+
+section brr
+variable {K : Type} [Field K] [LinearOrder K] [IsStrictOrderedRing K]
+
+omit [IsStrictOrderedRing K] in
+/-- **tie_breaking='random' returns a best response** (whatever the generator draws), leaves the game
+    as it is, and equals the 'smallest' answer when there is only one best response. -/
+theorem step_brr (g : Game K) (i : Nat) (opps : List (Act K)) (tol : K) (draw a : Nat) (g' : Game K)
+    (h : step g (.brr i opps tol none draw) = (g', .idxs [a])) :
+    g' = g ∧ ∃ v, payoffVectorC (g.player i) opps = .ok v ∧ a ∈ bestResponses v.data tol ∧
+      (∀ b, bestResponses v.data tol = [b] → a = b) := by
+  simp only [step] at h
+  split at h
+  · rename_i v hv
+    split at h
+    · rename_i c hc
+      simp only [addPert] at hc
+      have e1 : g' = g := (Prod.mk.inj h).1.symm
+      have e2 : c = a := by
+        have := (Prod.mk.inj h).2
+        injection this with h3
+        exact (List.cons.inj h3).1
+      subst e2
+      refine ⟨e1, v, hv, randomChoice_mem _ _ _ hc, ?_⟩
+      intro b hb
+      rw [hb] at hc
+      exact (Option.some.inj hc).symm
+    · cases (Prod.mk.inj h).2
+  · cases (Prod.mk.inj h).2
+
+end brr
+
+example : (step exGame (.brr 0 [.pure 1] 100 none 1)).2 = .idxs [1] ∧
+    (step exGame (.brr 0 [.pure 1] 0 none 7)).2 = .idxs [1] := ⟨rfl, rfl⟩
+
 
 end QE.C14
